@@ -783,7 +783,9 @@ impl FrontendInternal {
         queue_index: usize,
         fd: RawFd,
     ) -> VhostUserResult<VhostUserMsgHeader<FrontendReq>> {
-        if queue_index as u64 >= self.max_queue_num {
+        // The vring index travels in bits 0-7 of the payload: a larger index cannot be encoded
+        // (bit 8 already is the invalid FD flag).
+        if queue_index as u64 >= self.max_queue_num || queue_index > 0xff {
             return Err(VhostUserError::InvalidParam);
         }
         self.check_state()?;
